@@ -196,10 +196,10 @@ func frameCheck(e *Env, sum bool) {
 	}
 	isDrainingChild(e)
 	if !sum {
-		r.Rule("every self-measuring frame type (SseBinary, SzseBinary, RcBinary, RootPacket) × every registered message type of its table × body kind {zero, canonical, long variable-length parts, absent, member type of another key} × buffer history H1..H7 (empty, random content, earlier frames, partly consumed, drained and reused, garbage in spare capacity, exactly header-sized spare capacity so that the backing array is reallocated between the length placeholder and its patch) × caller-supplied length/checksum {0, 4, 0xFFFFFFFF, random, already correct}; thorough adds frames > 8 MiB. distinct_nontrivial = distinct (type,key,body kind,history,stale) combinations whose body is non-empty")
+		r.Rule("every self-measuring frame type (SseBinary, SzseBinary, RcBinary, RootPacket) × every registered message type of its table × body kind {zero, canonical, long variable-length parts, absent, member type of another key} × buffer history H1..H9 (empty, random content, earlier frames, partly consumed, drained and reused, garbage in spare capacity, exactly header-sized spare capacity so that the backing array is reallocated between the length placeholder and its patch, full array mostly consumed so that the buffer slides, capacity ending inside the last bytes of this encoding) × caller-supplied length/checksum {0, 4, 0xFFFFFFFF, random, already correct}; thorough adds frames > 8 MiB. distinct_nontrivial = distinct (type,key,body kind,history,stale) combinations whose body is non-empty")
 		r.Explain("Oracle: the length token found in the appended bytes at the schema position (SSE @12, SZSE @4, risk @8: big-endian u32; sample root @2: little-endian u32) == number of appended bytes − header − trailer == the frame object's length field after Encode == length of the reference encoder's rendering of the body.")
 	} else {
-		r.Rule("every checksummed frame type (SseBinary, SzseBinary, RootPacket) × every registered message type × body kind × buffer history H1..H7 × stale caller-supplied values, as for C04; thorough adds frames > 8 MiB with many 0xFF bytes. distinct_nontrivial = distinct combinations whose prior buffer content was non-empty")
+		r.Rule("every checksummed frame type (SseBinary, SzseBinary, RootPacket) × every registered message type × body kind × buffer history H1..H9 × stale caller-supplied values, as for C04; thorough adds frames > 8 MiB with many 0xFF bytes. distinct_nontrivial = distinct combinations whose prior buffer content was non-empty")
 		r.Explain("Oracle: trailer (last 4 appended bytes, module byte order) == the frame object's Checksum after Encode == own implementation of the exchange algorithm (byte sum mod 256 for SSE/SZSE, bitwise reflected CRC-32 for sample) over exactly the appended bytes from the first header byte through the last body byte — i.e. including the corrected length field and excluding whatever was in the buffer before.")
 	}
 	r.Assume("frame positions come from the pinned schema", "the checksum services are registered under their built-in names (start-up state)")
